@@ -4,11 +4,15 @@ package pubsub
 
 import (
 	"context"
+	"encoding/json"
+	"os"
+	"path/filepath"
 	"fmt"
 	"math/rand"
 	"sort"
 	"strings"
 	"testing"
+	"sync"
 	"testing/synctest"
 	"time"
 
@@ -45,7 +49,13 @@ func vfAnnounceHistory(t *testing.T, rng *rand.Rand, nops int) (lit string, rec 
 		nn := 3
 		hosts := vfHosts(t, nn)
 		nodes := make([]*vfANode, nn)
+		// application scores the harness moves below the graylist threshold and back: a graylisted peer's messages and
+		// control traffic are ignored, its subscription announcements are not
+		var scoreMu sync.Mutex
+		appScore := make([]map[peer.ID]float64, nn)
 		for i := range nodes {
+			i := i
+			appScore[i] = map[peer.ID]float64{}
 			opts := []Option{WithPeerOutboundQueueSize(1 + rng.Intn(2)), WithMessageSignaturePolicy(StrictNoSign), WithMessageIdFn(vfMsgID)}
 			var ps *PubSub
 			var err error
@@ -53,6 +63,13 @@ func vfAnnounceHistory(t *testing.T, rng *rand.Rand, nops int) (lit string, rec 
 			case 0:
 				ps, err = NewFloodSub(ctx, hosts[i], opts...)
 			default:
+				sp := &PeerScoreParams{AppSpecificScore: func(p peer.ID) float64 {
+					scoreMu.Lock()
+					defer scoreMu.Unlock()
+					return appScore[i][p]
+				}, AppSpecificWeight: 1, DecayInterval: time.Second, DecayToZero: 0.01, Topics: map[string]*TopicScoreParams{}}
+				th := &PeerScoreThresholds{GossipThreshold: -10, PublishThreshold: -20, GraylistThreshold: -30, AcceptPXThreshold: 10, OpportunisticGraftThreshold: 1}
+				opts = append(opts, WithPeerScore(sp, th))
 				ps, err = NewGossipSub(ctx, hosts[i], opts...)
 			}
 			if err != nil {
@@ -60,13 +77,10 @@ func vfAnnounceHistory(t *testing.T, rng *rand.Rand, nops int) (lit string, rec 
 			}
 			nodes[i] = &vfANode{ps: ps, topics: map[int]*Topic{}, subs: map[int][]*Subscription{}, relays: map[int][]RelayCancelFunc{}, fo: rng.Intn(2) == 0}
 		}
+		// tainted[{a, b}]: a's OUTBOUND pubsub stream to b was reset while the connection stayed up (a then forgets b's
+		// subscriptions: the recorded finding); what b believes about a is not excused
 		tainted := map[[2]int]bool{}
-		key := func(a, b int) [2]int {
-			if a > b {
-				a, b = b, a
-			}
-			return [2]int{a, b}
-		}
+		untaint := func(a, b int) { delete(tainted, [2]int{a, b}); delete(tainted, [2]int{b, a}) }
 		connected := func(a, b int) bool { return hosts[a].Network().Connectedness(hosts[b].ID()) == network.Connected }
 		topicOf := func(n *vfANode, tp int) *Topic {
 			if x, ok := n.topics[tp]; ok {
@@ -137,7 +151,7 @@ func vfAnnounceHistory(t *testing.T, rng *rand.Rand, nops int) (lit string, rec 
 			for a := 0; a < nn; a++ {
 				for b := a + 1; b < nn; b++ {
 					if connected(a, b) {
-						ll = append(ll, fmt.Sprintf("(%d, %d, %v)", a, b, tainted[key(a, b)]))
+						ll = append(ll, fmt.Sprintf("(%d, %d, %v)", a, b, tainted[[2]int{a, b}]), fmt.Sprintf("(%d, %d, %v)", b, a, tainted[[2]int{b, a}]))
 					}
 				}
 			}
@@ -151,7 +165,62 @@ func vfAnnounceHistory(t *testing.T, rng *rand.Rand, nops int) (lit string, rec 
 			if burst == 0 && rng.Intn(3) == 0 {
 				burst = 2 + rng.Intn(4)
 			}
+			if burst == 0 && rng.Intn(12) == 0 {
+				// announcements queued while a peer's queue has no writer: a's outbound stream to b is reset twice (the second
+				// respawn waits 100 ms), and inside that window a subscribes to a topic and cancels again
+				b := rng.Intn(nn)
+				if a == b || !connected(a, b) || n.interest(tp) {
+					continue
+				}
+				resetOut := func() bool {
+					for _, c := range hosts[a].Network().ConnsToPeer(hosts[b].ID()) {
+						for _, s := range c.GetStreams() {
+							if s.Stat().Direction == network.DirOutbound && (strings.Contains(string(s.Protocol()), "meshsub") || strings.Contains(string(s.Protocol()), "floodsub")) {
+								s.Reset()
+								return true
+							}
+						}
+					}
+					return false
+				}
+				queueOf := func() (q *rpcQueue) {
+					vfEval(n.ps, func() { q = n.ps.peers[hosts[b].ID()] })
+					return
+				}
+				q0 := queueOf()
+				if q0 == nil || !resetOut() {
+					continue
+				}
+				tainted[[2]int{a, b}] = true
+				nReset++
+				time.Sleep(200 * time.Millisecond)
+				q1 := queueOf()
+				if q1 == nil || q1 == q0 || !resetOut() {
+					observe(fmt.Sprintf("reset-outbound-pubsub-stream %d->%d", a, b))
+					continue
+				}
+				for k := 0; k < 50 && queueOf() == q1; k++ {
+					time.Sleep(time.Millisecond)
+				}
+				if s, err := topicOf(n, tp).Subscribe(); err == nil {
+					s.Cancel()
+					vfEval(n.ps, func() {})
+				}
+				observe(fmt.Sprintf("reset-outbound-pubsub-stream-twice %d->%d ; subscribe %d t%d ; cancel %d t%d (inside the respawn backoff)", a, b, a, tp, a, tp))
+				continue
+			}
 			switch r := rng.Intn(100); {
+			case r < 5:
+				// node a's opinion of node b drops below the graylist threshold, or recovers
+				b := rng.Intn(nn)
+				if a == b {
+					continue
+				}
+				v := []float64{-100, -100, 0}[rng.Intn(3)]
+				scoreMu.Lock()
+				appScore[a][hosts[b].ID()] = v
+				scoreMu.Unlock()
+				observe(fmt.Sprintf("app-score %d of %d := %v", a, b, v))
 			case r < 22:
 				b := rng.Intn(nn)
 				if a == b || connected(a, b) {
@@ -160,7 +229,7 @@ func vfAnnounceHistory(t *testing.T, rng *rand.Rand, nops int) (lit string, rec 
 				if err := hosts[a].Connect(ctx, peer.AddrInfo{ID: hosts[b].ID(), Addrs: hosts[b].Addrs()}); err != nil {
 					continue
 				}
-				delete(tainted, key(a, b))
+				untaint(a, b)
 				observe(fmt.Sprintf("connect %d %d", a, b))
 			case r < 30:
 				b := rng.Intn(nn)
@@ -168,7 +237,7 @@ func vfAnnounceHistory(t *testing.T, rng *rand.Rand, nops int) (lit string, rec 
 					continue
 				}
 				hosts[a].Network().ClosePeer(hosts[b].ID())
-				delete(tainted, key(a, b))
+				untaint(a, b)
 				observe(fmt.Sprintf("disconnect %d %d", a, b))
 			case r < 50:
 				if n.topics[tp] == nil && rng.Intn(2) == 0 {
@@ -260,7 +329,7 @@ func vfAnnounceHistory(t *testing.T, rng *rand.Rand, nops int) (lit string, rec 
 				if !done {
 					continue
 				}
-				tainted[key(a, b)] = true
+				tainted[[2]int{a, b}] = true
 				nReset++
 				observe(fmt.Sprintf("reset-outbound-pubsub-stream %d->%d", a, b))
 			}
@@ -292,14 +361,21 @@ func TestVF_Announce(t *testing.T) {
 	cs.shard = 40
 	rng := vfRng(5)
 	ncases := vfN(80, 800)
+	wroteCV := false
 	for c := 0; c < ncases; c++ {
 		lit, rec, nt, cv := vfAnnounceHistory(t, rng, 25+rng.Intn(30))
 		if cv != "" {
 			rec["cancel_violation"] = cv
 			cs.extra["cancel_violation"] = cv
+			if !wroteCV {
+				// a cancelled subscription must report cancellation from Next once its buffer is drained
+				wroteCV = true
+				js, _ := json.MarshalIndent(map[string]any{"property": "C05", "code": 55, "key": "cancelled-subscription-next", "what": cv, "case": rec}, "", " ")
+				os.WriteFile(filepath.Join(vfOutDir(t), "violation_announce_cancel.json"), js, 0o644)
+			}
 		}
 		cs.add(lit, rec, nt)
 	}
-	cs.flush("random histories on three REAL nodes (floodsub / gossipsub mixed, outbound queues of 1-2 slots so that announcements are refused and retried): connect, whole-peer disconnect, Subscribe, Subscription.Cancel (checking that Next reports cancellation after draining), Relay, relay-cancel (also twice), Topic.Close, a third topic that some nodes join in fanout-only mode (their subscriptions to it must never be announced), and resets of ONE outbound pubsub stream while the connection stays up; after every operation the network is left alone for six virtual seconds and every node's ListPeers for every topic is compared with the connected peers that hold a subscription or relay reference; " +
+	cs.flush("random histories on three REAL nodes (floodsub / gossipsub mixed, outbound queues of 1-2 slots so that announcements are refused and retried): connect, whole-peer disconnect, Subscribe, Subscription.Cancel (checking that Next reports cancellation after draining), Relay, relay-cancel (also twice), Topic.Close, application scores that push a peer below the graylist threshold of a gossipsub node and back, a third topic that some nodes join in fanout-only mode (their subscriptions to it must never be announced), and resets of ONE outbound pubsub stream while the connection stays up; after every operation the network is left alone for six virtual seconds and every node's ListPeers for every topic is compared with the connected peers that hold a subscription or relay reference; " +
 		"non-trivial = more than two interest flips and more than 8 observed operations; distinct = hash of the observations")
 }
